@@ -195,6 +195,16 @@ func (f *Func) redefineInputs(opts ...Arg) (reflect.Type, error) {
 			})
 
 		case *typedArgVertex:
+			// A typed value that was given directly satisfies this
+			// argument. Typed inputs are tracked as typed outputs so
+			// the ID check above does not catch them.
+			if _, ok := inputsProvided[graph.VertexID(&typedOutputVertex{
+				Type:    v.Type,
+				Subtype: v.Subtype,
+			})]; ok {
+				continue
+			}
+
 			sf = append(sf, reflect.StructField{
 				Name: fmt.Sprintf("V__Type_%d", len(sf)),
 				Type: v.Type,
